@@ -9,7 +9,8 @@ From V Require Import SecuritySpec SecurityProofs.
 (* The handler runs, reading principal p and scopes sc, only if (p = Some q) some alternative is fully satisfied -
    non-empty, every scheme registered and accepting with a non-nil principal - q is a principal of one of its
    schemes, sc is the set of its scopes and the authorizer accepts q; or (p = None) the anonymous alternative is
-   declared, no scheme that was asked rejected, and the authorizer accepts. *)
+   declared, no scheme that was asked rejected, no declared alternative all of whose schemes found credentials had
+   one of them rejected (whether or not that scheme was reached), and the authorizer accepts. *)
 Theorem C02_runs_only_if_satisfied : forall out alts az bind_ok p sc,
   alts <> [] -> In (Handle p sc) (secure_handler out alts az bind_ok) ->
   justified out alts az (secure_handler out alts az bind_ok) p sc.
@@ -32,12 +33,13 @@ Proof. exact nothing_runs_unless_admissible. Qed.
 Print Assumptions C02_nothing_after_refusal.
 
 (* every other request ends in the response carrying the error of the scheme that rejected last, 401 when no
-   asked scheme rejected, or the authorizer's error (403 unless it carries its own status) *)
+   asked scheme rejected AND no alternative that applied was rejected, or the authorizer's error (403 unless it
+   carries its own status; consulted for the nil principal only when nothing was rejected) *)
 Theorem C02_refused_otherwise : forall out alts az bind_ok,
   alts <> [] ->
   let tr := secure_handler out alts az bind_ok in
   ~ In Bind tr ->
-  (forall p sc, ~ In (Handle p sc) tr) /\ exists c m, last tr Bind = Respond c m /\ refusal out az tr c m.
+  (forall p sc, ~ In (Handle p sc) tr) /\ exists c m, last tr Bind = Respond c m /\ refusal out alts az tr c m.
 Proof. exact refused_otherwise. Qed.
 Print Assumptions C02_refused_otherwise.
 
@@ -88,3 +90,31 @@ Theorem C02_verdict_order_independent : forall out alts alts',
   ran (secure_handler out alts None true) = ran (secure_handler out alts' None true).
 Proof. exact verdict_order_independent. Qed.
 Print Assumptions C02_verdict_order_independent.
+
+(* the anonymous alternative admits only when no scheme rejected credentials that were presented: stated over the
+   DECLARED structure and for every evaluation order - a scheme that was not reached counts *)
+Theorem C02_anonymous_only_if_nothing_rejected : forall out alts alts' az bind_ok sc,
+  Forall2 alt_perm alts alts' -> alts <> [] ->
+  In (Handle None sc) (secure_handler out alts' az bind_ok) -> none_rejected_declared out alts.
+Proof. exact anonymous_only_if_nothing_rejected. Qed.
+Print Assumptions C02_anonymous_only_if_nothing_rejected.
+
+(* the library's authenticators over a table-driven callback accept only what the table grants to this scheme
+   for the scopes of this operation *)
+Theorem C02_scheme_accepts_only_granted : forall scoped unk insuf grants creds s sc p,
+  cred_oracle scoped unk insuf grants creds s sc = Acc p ->
+  exists tok g, In (s, tok) creds /\ In g grants /\ g_scheme g = s /\ g_token g = tok /\ g_princ g = p /\
+                (scoped s = true -> forall x, In x sc -> In x (g_scopes g)).
+Proof. exact cred_oracle_accepts_only_granted. Qed.
+Print Assumptions C02_scheme_accepts_only_granted.
+
+(* several requests on one api instance: each is answered from its own credentials alone (the model of a history
+   is the single-request model mapped over it) and satisfies the property *)
+Theorem C02_history_pointwise : forall oracle_for ops az calls,
+  length (history oracle_for ops az calls) = length calls /\
+  forall i c, nth_error calls i = Some c ->
+    exists tr, nth_error (history oracle_for ops az calls) i = Some tr /\
+               tr = secure_handler (oracle_for (hq_creds c)) (nth (hq_op c) ops []) az (hq_bind c) /\
+               sec_ok (oracle_for (hq_creds c)) (nth (hq_op c) ops []) az (hq_bind c) true tr = true.
+Proof. exact history_pointwise. Qed.
+Print Assumptions C02_history_pointwise.
